@@ -95,10 +95,15 @@ std::string handle(const std::string& op, Args& a)
 		a.end();
 		bool bad  = !(x >= 0) || !(s > 0);
 		auto body = [&](Out& o) {
-			if(op == "c06.gammaq")
-				o << GammaQ(x, s);
-			else if(op == "c06.gammap")
-				o << GammaP(x, s);
+			if(op == "c06.gammaq" || op == "c06.gammap")
+			{
+				o << (op == "c06.gammaq" ? GammaQ(x, s) : GammaP(x, s));
+				// the three evaluators called directly (as Q values), to observe which branch GammaQ took
+				bool in = x > 0 && s > 0;
+				o << (in ? 1.0 - GammaPser(x, s) : NAN);
+				o << (in && x - s >= 0.5 ? GammaQcf(x, s) : NAN);
+				o << (in && s > 50.0 ? GammaQint(x, s) : NAN);
+			}
 			else
 				o << Upper_Incomplete_Gamma(x, s) << Lower_Incomplete_Gamma(x, s) << Gamma(s) << GammaQ(x, s) << GammaP(x, s);
 		};
